@@ -11,7 +11,7 @@ from vlib.core import Failure
 PROP = "C13"
 RULE = (
     "a case is a C12 response (payload, coding stack, framing, chunk sizes, segmentation, decode flag, read-call "
-    "sequence + draining tail, direct connection | pool | preloading pool) plus ONE mutation: cut = the stream ends "
+    "sequence + draining tail (incl. drain_conn(), which presents nothing: only the connection clause applies), direct connection | pool | preloading pool) plus ONE mutation: cut = the stream ends "
     "(EOF) after k body bytes, for EVERY k from 0 to len(body)-1; chunksize = one hex digit of a chunk-size line "
     "replaced by a non-hex byte, or the line removed; flip = one byte of the encoded content xor-ed with consistent "
     "framing; clconflict = two different Content-Length values. The oracle is three-valued and computed from "
@@ -158,7 +158,9 @@ def build(case):
             raise core.InvalidCase
         content = content[: len(content) - mut["drop"]]
     head, body = respgen.frame(content, case)
-    eof = framing == "close"
+    eof = framing == "close" or bool(case.get("cl_list"))
+    if case.get("cl_list") and (framing != "cl" or m == "clconflict"):
+        raise core.InvalidCase
     verdict, expected, why = None, None, ""
     if m in ("flip", "trunc", "none"):
         if decode:
@@ -251,7 +253,7 @@ def _run(case) -> list[Failure]:
 
     if case.get("kind") != "cut" or not c12.valid(case) or case.get("via") not in ("conn", "pool", "pool-preload"):
         raise core.InvalidCase
-    if case["tail"][0] not in [t[0] for t in TAILS] + ["data"] or (case["tail"][0] in ("readloop", "readintoloop") and not case["tail"][1]):
+    if case["tail"][0] not in [t[0] for t in TAILS] + ["data", "drain"] or (case["tail"][0] in ("readloop", "readintoloop") and not case["tail"][1]):
         raise core.InvalidCase
     for api, arg in case["ops"]:
         if api not in ("read", "read1", "readinto") or (arg is not None and (not isinstance(arg, int) or arg < 0)) or (api == "readinto" and not arg):
@@ -261,6 +263,9 @@ def _run(case) -> list[Failure]:
     served, eof, verdict, expected, why = build(case)
     decode = bool(case["decode"])
     via = case.get("via", "conn")
+    drain = case["tail"][0] == "drain"
+    if drain and via != "pool":
+        raise core.InvalidCase
     second = fakenet.response_bytes(200, body=b"SECOND-RESPONSE")
     srv = respgen.OneShot(served, case.get("seg"), eof=eof, second=second)
     mut = case["mut"]
@@ -296,6 +301,10 @@ def _run(case) -> list[Failure]:
         brief = f"{_brief(case)} [{why}]"
         if err is not None and not isinstance(err, ue.HTTPError):
             fails.append(Failure("error-type", {**sig, "exc": type(err).__name__}, f"{brief}: raised {type(err).__name__}: {err} (not a urllib3 error)"))
+        elif drain and err is None:
+            # drain_conn() discards the rest and documents no error; it presents nothing.  Only the clause about the
+            # connection applies (below).  (An error of an earlier call of the sequence is judged like any other.)
+            pass
         elif verdict == "raise":
             if err is None:
                 fails.append(Failure("presented-complete", sig, f"{brief}: every call returned normally ({len(got)} bytes in {len(pieces)} pieces) although the response is cut off / corrupt"))
@@ -313,7 +322,7 @@ def _run(case) -> list[Failure]:
             if not full.startswith(got):
                 fails.append(Failure("prefix", sig, f"{brief}: bytes delivered before the end are not a prefix of the body ({got[:40]!r}...)"))
         # ---- pool level: the connection is closed and never reused
-        if pool is not None and verdict == "raise" and err is not None and not fails:
+        if pool is not None and verdict == "raise" and (err is not None or drain) and not fails:
             second_state = "ok"
             try:
                 if resp is not None:
@@ -333,8 +342,8 @@ def _run(case) -> list[Failure]:
                 if still_open or same_socket or second_state != "ok":
                     fails.append(Failure(
                         "conn-not-discarded",
-                        {"mut": mut["m"], "framing": case["framing"], "same_socket": same_socket, "second": second_state, "error": type(err).__name__},
-                        f"{brief}: after {type(err).__name__} the socket #{first.sid} that carried the broken response is "
+                        {"mut": mut["m"], "framing": case["framing"], "same_socket": same_socket, "second": second_state, "error": type(err).__name__ if err is not None else "drained"},
+                        f"{brief}: after {type(err).__name__ if err is not None else 'drain_conn()'} the socket #{first.sid} that carried the broken response is "
                         f"{'still open' if still_open else 'closed'}; the next request on the pool was {'written to that same socket' if same_socket else 'sent on another socket'} and {second_state}",
                     ))
             finally:
@@ -408,7 +417,7 @@ def mutations(base, dense: bool, salt: int):
         for drop in sorted({1, 2, 3, 4, 8, len(content) // 2, len(content)} - {0}):
             if drop <= len(content):
                 yield {"m": "trunc", "drop": drop}
-    if base["framing"] == "cl":
+    if base["framing"] == "cl" and not base.get("cl_list"):
         for form in ("two", "comma"):
             for delta in (1, 0):
                 yield {"m": "clconflict", "form": form, "delta": delta}
@@ -423,10 +432,10 @@ def ex_cases(tier):
 
     i = 0
     for n, coding, members, framing in EX_RESPONSES:
-        for tail in TAILS + [["data", None]]:
+        for tail in TAILS + [["data", None], ["drain", None]]:
             for ops in EX_OPS:
                 for seg in (1, None):
-                    for via in (("conn", "pool") if tail[0] != "data" else ("pool-preload",)):
+                    for via in (("conn", "pool") if tail[0] not in ("data", "drain") else (("pool-preload",) if tail[0] == "data" else ("pool",))):
                         if tier == "quick" and ((via == "pool" and (ops or seg)) or n == 0 or len(ops) > 1 or (ops and seg) or (ops and ops[0][0] == "readinto")):
                             continue
                         if tail[0] == "data" and ops:
@@ -436,6 +445,8 @@ def ex_cases(tier):
                         if not c12.valid(base) or (framing == "chunked" and respgen.families(base) == {"A", "B"}):
                             continue
                         yield base
+                        if framing == "cl" and coding in ([], ["gzip"]) and members == 1:
+                            yield dict(base, cl_list=True)  # Content-Length: N, N
 
 
 def _hyp():
@@ -449,7 +460,7 @@ def _hyp():
     tail = st.one_of(
         st.just(["read", None]), st.tuples(st.just("readloop"), nvals).map(list), st.tuples(st.just("read1loop"), st.one_of(nvals, st.none())).map(list),
         st.tuples(st.just("readintoloop"), nvals).map(list), st.tuples(st.just("stream"), st.sampled_from([1, 7, 65536, None, 3, 100])).map(list),
-        st.tuples(st.just("read_chunked"), st.sampled_from([None, 1, 2, 5, 40, 1000])).map(list), st.just(["iter", None]), st.just(["data", None]),
+        st.tuples(st.just("read_chunked"), st.sampled_from([None, 1, 2, 5, 40, 1000])).map(list), st.just(["iter", None]), st.just(["data", None]), st.just(["drain", None]),
     )
     coding = st.one_of(st.sampled_from(c12.CODINGS), st.sampled_from(c12.CODINGS[1:]), st.sampled_from(c12.STACKS))
 
@@ -471,11 +482,15 @@ def _hyp():
         via = draw(st.sampled_from(["conn", "conn", "pool"]))
         if t[0] == "data":
             via, ops = "pool-preload", []
+        if t[0] == "drain":
+            via = "pool"
         if t[0] == "read_chunked" and framing != "chunked":
             framing, cs = "chunked", cs or [7]
         if t[0] == "iter":
             decode = True
         c = mk(n, draw(st.integers(0, 50)), cod, members, framing, cs, ext, seg, decode, ops, t, via, None)
+        if framing == "cl" and draw(st.integers(0, 3)) == 0:
+            c["cl_list"] = True  # Content-Length: N, N
         if framing == "chunked" and respgen.families(c) == {"A", "B"}:
             c["ops"] = []
         if big:
